@@ -118,10 +118,10 @@ def validate_parse_number(res, exe, inp, done, limit=12):
         bad = pred_none != real_none or out['warnings'] != warns or (not real_none and out['consumed'] != idx)
         if not bad and not pred_none:
             e = r.fields[0]
-            if e.variant == 'LitInt':
+            if (e.variant or e.name) == 'LitInt':
                 v = model.eval(e.fields[0], model_completion=True).as_long()
                 bad = not out['result'].startswith('LitInt %d ' % v)
-            elif e.variant == 'LitFloat':
+            elif (e.variant or e.name) == 'LitFloat':
                 bad = not out['result'].startswith('LitFloat')
         if bad:
             res.inconc('translator validation: %r: M predicts %r (cursor %d, warnings %d), real %r' % (s, r, idx, warns, out))
